@@ -10,7 +10,9 @@ CLAIM = ("Theorem word_det_sound (Lean): an automaton that passes the word-deter
          "checker returns on failure is a real pair of transitions. On every run the checker is applied to every automaton the real "
          "library produces (main + within-word, raw + minimised) for grammars biased as the quantifier asks, so each explored automaton "
          "is decided exactly; the `||` grammar and its `|` variant are decided language-equal with labels erased by the verified "
-         "bisimulation checker. The full statement is false of the pinned design: two kinds of violation are recorded as known findings "
+         "bisimulation checker; fallback_transparent (Lean, all grammars): whenever the model of check.rs accepts a grammar and its `|` "
+         "variant, the two validated expressions agree once descriptions, levels and positions are erased and `||` is read as `|` (through "
+         "C02's validation_is_meaning). The full statement is false of the pinned design: two kinds of violation are recorded as known findings "
          "and recognised from the witness (both items literals with equal text and description; both items within-word automata); any "
          "other witness is a violation.")
 NOTE = ("Not covered by a theorem: that the compiler's construction yields a word-deterministic automaton for the in-class grammars "
